@@ -631,6 +631,64 @@ func durationValues() *core.Family {
 	}
 }
 
+// per-unit extremes: each unit absent, 0, 1, or at / one below / one above the largest
+// quantity that unit alone can carry. Every single product fits, the SUM of three or
+// more may not: an accumulator that is only range-checked at the end wraps silently.
+func durationExtremes() *core.Family {
+	us := []string{"d", "h", "m", "s", "ms"}
+	umax := []int64{106751991167, 2562047788015, 153722867280912, 9223372036854775, 9223372036854775807}
+	const nq = 6
+	q := func(u, k int) string {
+		switch k {
+		case 0:
+			return ""
+		case 1:
+			return "0"
+		case 2:
+			return "1"
+		case 3:
+			return fmt.Sprint(umax[u] - 1)
+		case 4:
+			return fmt.Sprint(umax[u])
+		}
+		return new(big.Int).Add(big.NewInt(umax[u]), big.NewInt(1)).String()
+	}
+	n := int64(2)
+	for range us {
+		n *= nq
+	}
+	return &core.Family{
+		Name: "duration-per-unit-extremes",
+		Desc: fmt.Sprintf("every combination of the five units, each absent / 0 / 1 / max-1 / max / max+1 of what that unit alone can carry (d %d, h %d, m %d, s %d, ms %d), both signs (%d literals): accepted iff the exact sum is within 64 bits, with the exact value", umax[0], umax[1], umax[2], umax[3], umax[4], n),
+		N:    n,
+		Run: func(t *core.T, i int64) {
+			x := i
+			s := ""
+			if x%2 == 1 {
+				s = "-"
+			}
+			x /= 2
+			any := false
+			for u := range us {
+				k := int(x % nq)
+				x /= nq
+				if qs := q(u, k); qs != "" {
+					s += qs + us[u]
+					any = true
+				}
+			}
+			if !any {
+				return
+			}
+			cmpParse(t, "duration", s, ParseDuration, implDuration)
+			if _, ok := ParseDuration(s); ok {
+				t.Nontrivial()
+			}
+			t.Sample(s)
+		},
+	}
+}
+
 func durationSubsets() *core.Family {
 	us := []string{"d", "h", "m", "s", "ms"}
 	qs := []string{"0", "1", "59", "1000", "106751991167", "9223372036854775807", "9223372036854775808", "01"}
@@ -866,7 +924,7 @@ func Check() *core.Check {
 		Families: func(tier string) []*core.Family {
 			th := tier == "thorough"
 			fams := []*core.Family{longFamily(), decimalSmall(), decimalBoundary(), decimalNeighbourhood(), newDecimalFamily(), floatFamily(),
-				datetimeGrid(true), datetimeLeapYears(th), datetimeRender(true), datetimeNeighbourhood(), durationValues(), durationSubsets(), durationNeighbourhood(), ipFamily(),
+				datetimeGrid(true), datetimeLeapYears(th), datetimeRender(true), datetimeNeighbourhood(), durationValues(), durationSubsets(), durationExtremes(), durationNeighbourhood(), ipFamily(),
 				entityUIDScalars(0, 0x10FFFF, "entityuid-all-scalars")}
 			_ = th
 			return append(fams, ed2Family())
